@@ -498,7 +498,7 @@ Lemma InvC_step st L e :
   let '(st', r, calls) := step cfg st e in
   InvC cfg (conn st') (live_step (c_cb cfg) L (e, r, calls)).
 Proof.
-  intros H. destruct e as [p f b v|p boot|p|p f1 f2|p|ps|ps|p pub]; cbn [step].
+  intros H. destruct e as [p f b v|p boot|p|p f1 f2|p|ps|ps|p pub|nb']; cbn [step].
   - pose proof (InvC_connected st L p f b v H) as H1.
     destruct (connected cfg st p f b v) as [[st' r] calls].
     now rewrite live_step_connected.
@@ -544,3 +544,436 @@ Proof.
   - eapply NoDup_reported; eauto.
   - intros p. rewrite (In_reported_mem cfg) by auto. apply Hm.
 Qed.
+
+(** ---------- outbound connections to boot nodes are never counted ---------- *)
+Definition adds (x : entry) (p : peer) : Prop :=
+  match x with
+  | (EConnected q _ _ _, ROk, _) => q = p
+  | (EOutbound q false, _, _) => q = p
+  | _ => False
+  end.
+
+Lemma In_fold_remove_all q calls L :
+  In q (fold_left (fun acc v => remove_all v acc) calls L) -> In q L.
+Proof.
+  revert L; induction calls as [|v t IH]; intros L H; cbn [fold_left] in H; auto.
+  apply IH in H. apply In_remove_all in H. tauto.
+Qed.
+
+Lemma live_step_sub cb L x q : In q (live_step cb L x) -> In q L \/ adds x q.
+Proof.
+  destruct x as [[e r] calls]. unfold live_step.
+  set (L1 := if cb then _ else L).
+  assert (H1 : In q L1 -> In q L).
+  { unfold L1. destruct cb; auto. apply In_fold_remove_all. }
+  destruct e as [p f b v|p boot|p|p f1 f2|p|ps|ps|p pub|nb']; cbn [adds].
+  - destruct r; auto. rewrite In_set_add. intros [H|H]; auto.
+  - destruct boot; [auto|]. destruct r; rewrite ?In_set_add; try (intros [H|H]; auto); auto.
+  - rewrite In_remove_all. tauto.
+  - destruct r; rewrite ?In_remove_all; tauto.
+  - auto.
+  - auto.
+  - auto.
+  - auto.
+Qed.
+
+Lemma live_fold_sub cb log : forall L q,
+  In q (fold_left (live_step cb) log L) -> In q L \/ exists x, In x log /\ adds x q.
+Proof.
+  induction log as [|x t IH]; intros L q H; cbn [fold_left] in H; auto.
+  apply IH in H. destruct H as [H|[y [Hy Ha]]].
+  - apply live_step_sub in H. destruct H as [H|H]; auto. right. exists x. split; auto. now left.
+  - right. exists y. split; auto. now right.
+Qed.
+
+Lemma run_events cfg h : forall st, map (fun x : entry => fst (fst x)) (fst (run cfg st h)) = h.
+Proof.
+  induction h as [|e t IH]; intros st; cbn [run]; auto.
+  destruct (step cfg st e) as [[st1 r] calls]. specialize (IH st1).
+  destruct (run cfg st1 t) as [log st2]. cbn [fst map] in *. now rewrite IH.
+Qed.
+
+(** an event that can make [p] counted: an inbound connection of [p], or an outbound one not to a boot node *)
+Definition may_count (p : peer) (e : event) : bool :=
+  match e with
+  | EConnected q _ _ _ => peer_eqb q p
+  | EOutbound q boot => peer_eqb q p && negb boot
+  | _ => false
+  end.
+
+Lemma bootnode_never_counted (cfg : config) (h : list event) (p : peer) :
+  (1 <= c_nb cfg)%nat ->
+  forallb (fun e => negb (may_count p e)) h = true ->
+  ~ In p (reported (conn (snd (run cfg (init cfg) h)))).
+Proof.
+  intros Hnb Hh Hin.
+  apply (connected_exact cfg h Hnb) in Hin. unfold live in Hin.
+  apply live_fold_sub in Hin. destruct Hin as [[]|[x [Hx Ha]]].
+  assert (He : In (fst (fst x)) h).
+  { rewrite <- (run_events cfg h (init cfg)). now apply (in_map (fun x : entry => fst (fst x))). }
+  rewrite forallb_forall in Hh. specialize (Hh _ He).
+  destruct x as [[e r] calls]. cbn [fst] in *.
+  destruct e as [q f b v|q boot|q|q f1 f2|q|ps|ps|q pub|nb']; cbn [adds may_count] in *; try contradiction.
+  - destruct r; try contradiction. subst. now rewrite peer_eqb_refl in Hh.
+  - destruct boot; try contradiction. subst. now rewrite peer_eqb_refl in Hh.
+Qed.
+
+(** ---------- every connected peer is also known ---------- *)
+Record InvK (cfg : config) (st : state) : Prop := {
+  ik_len : length (known st) = c_nb cfg;
+  ik_sub : forall q, ps_mem cfg q (conn st) -> ps_mem cfg q (known st)
+}.
+
+Definition wf_entry (L : list peer) (e : event) : Prop :=
+  match e with EOutbound p true => ~ In p L | _ => True end.
+
+Section Known.
+Variable cfg : config.
+Hypothesis Hnb : (1 <= c_nb cfg)%nat.
+
+Lemma InvK_init : InvK cfg (init cfg).
+Proof.
+  split; cbn [init known conn].
+  - apply repeat_length.
+  - intros q H. now apply mem_new in H.
+Qed.
+
+Lemma InvK_disconnected st v : InvK cfg st -> InvK cfg (disconnected cfg st v).
+Proof.
+  intros [Hl Hs]. split; cbn [disconnected known conn]; auto.
+  intros q H. apply Hs. eapply mem_remove_sub; eauto.
+Qed.
+Lemma InvK_p2p_disc st v : InvK cfg st -> InvK cfg (p2p_disc cfg st v).
+Proof. intros H. unfold p2p_disc. destruct (c_cb cfg); auto. now apply InvK_disconnected. Qed.
+
+Lemma InvK_add_both st L p pr pu d t :
+  InvC cfg (conn st) L -> InvK cfg st ->
+  InvK cfg (mkState (ps_add1 cfg p (conn st)) (ps_add1 cfg p (known st)) pr pu d t).
+Proof.
+  intros HC [Hl Hs]. split; cbn [known conn].
+  - now rewrite len_add1.
+  - intros q H. apply mem_add1 in H.
+    + apply mem_add1; [rewrite Hl; now apply pbin_lt|]. destruct H; auto.
+    + rewrite (wf_len _ _ (ic_wf _ _ _ HC)). now apply pbin_lt.
+Qed.
+
+Lemma InvK_on_connected st L p bfail :
+  InvC cfg (conn st) L -> InvK cfg st -> InvK cfg (fst (fst (on_connected cfg st p bfail))).
+Proof.
+  intros HC HK. unfold on_connected. destruct (c_disc cfg && bfail && announce_targets st p); cbn [fst].
+  - now apply InvK_p2p_disc.
+  - eapply InvK_add_both; eauto.
+Qed.
+
+Lemma InvK_step st L e :
+  InvC cfg (conn st) L -> InvK cfg st -> wf_entry L e -> InvK cfg (fst (fst (step cfg st e))).
+Proof.
+  intros HC HK Hwf. destruct e as [p f b v|p boot|p|p f1 f2|p|ps|ps|p pub|nb']; cbn [step].
+  - unfold connected. destruct (oversaturated cfg st p && negb (is_protected st p)).
+    + destruct (c_boot cfg).
+      * destruct (evict_candidates cfg st p) as [|c0 cs]; cbn [fst]; auto.
+        set (v0 := nth _ _ _).
+        pose proof (InvK_on_connected (p2p_disc cfg st v0) _ p b (InvC_p2p_disc cfg st L v0 HC) (InvK_p2p_disc st v0 HK)) as H2.
+        destruct (on_connected cfg (p2p_disc cfg st v0) p b) as [[st2 r] calls]. exact H2.
+      * destruct f; cbn [fst]; auto. eapply InvK_on_connected; eauto.
+    + eapply InvK_on_connected; eauto.
+  - unfold outbound. destruct boot; cbn [fst].
+    + destruct HK as [Hl Hs]. split; cbn [known conn].
+      * now rewrite len_remove.
+      * intros q H. apply mem_remove_other; auto.
+        intros E. subst q. apply Hwf. now apply (ic_mem _ _ _ HC).
+    + eapply InvK_add_both; eauto.
+  - cbn [fst]. now apply InvK_disconnected.
+  - unfold disconnect_force. destruct f1; cbn [fst]; auto.
+    pose proof (InvK_p2p_disc st p HK) as H1.
+    pose proof (InvC_p2p_disc cfg st L p HC) as HC1.
+    destruct f2; cbn [fst]; auto.
+    destruct H1 as [Hl Hs]. split; cbn [known conn].
+    + now rewrite len_remove.
+    + intros q H. apply (mem_remove _ _ _ _ (ic_nd _ _ _ HC1)) in H. destruct H as [Hne H].
+      apply mem_remove_other; auto.
+  - cbn [fst]. auto.
+  - cbn [fst]. destruct HK as [Hl Hs]. split; cbn [known conn].
+    + now rewrite len_add.
+    + intros q H. apply mem_add_keep; auto.
+  - cbn [fst]. destruct HK as [Hl Hs]. split; auto.
+  - cbn [fst]. unfold reach. destruct HK as [Hl Hs]. destruct pub; split; auto.
+Qed.
+
+Lemma wf_log_head cb L e r calls t :
+  wf_log cb L ((e, r, calls) :: t) = true -> wf_entry L e /\ wf_log cb (live_step cb L (e, r, calls)) t = true.
+Proof.
+  cbn [wf_log]. rewrite andb_true_iff. intros [H1 H2]. split; auto.
+  destruct e as [p f b v|p boot|p|p f1 f2|p|ps|ps|p pub|nb']; cbn [wf_entry]; auto.
+  destruct boot; auto. apply memb_false. now destruct (memb p L).
+Qed.
+
+Lemma InvK_run h : forall st L,
+  InvC cfg (conn st) L -> InvK cfg st ->
+  wf_log (c_cb cfg) L (fst (run cfg st h)) = true ->
+  InvK cfg (snd (run cfg st h)).
+Proof.
+  induction h as [|e t IH]; intros st L HC HK Hwf; cbn [run] in *; auto.
+  pose proof (InvC_step cfg Hnb st L e HC) as HC1.
+  pose proof (InvK_step st L e HC HK) as HK1.
+  destruct (step cfg st e) as [[st1 r] calls]. cbn [fst] in HK1.
+  specialize (IH st1 (live_step (c_cb cfg) L (e, r, calls)) HC1).
+  destruct (run cfg st1 t) as [log st2]. cbn [fst snd] in *.
+  apply wf_log_head in Hwf. destruct Hwf as [Hw1 Hw2]. auto.
+Qed.
+
+End Known.
+
+Lemma connected_subset_known (cfg : config) (h : list event) :
+  (1 <= c_nb cfg)%nat ->
+  wf_log (c_cb cfg) [] (fst (run cfg (init cfg) h)) = true ->
+  forall p, In p (reported (conn (snd (run cfg (init cfg) h)))) ->
+            In p (reported (known (snd (run cfg (init cfg) h)))).
+Proof.
+  intros Hnb Hwf p Hp.
+  pose proof (InvC_run cfg Hnb h (init cfg) [] (InvC_init cfg)) as HC.
+  pose proof (InvK_run cfg Hnb h (init cfg) [] (InvC_init cfg) (InvK_init cfg) Hwf) as HK.
+  apply (mem_In_reported cfg). apply (ik_sub _ _ HK).
+  apply (In_reported_mem cfg); auto. apply (ic_wf _ _ _ HC).
+Qed.
+
+(** ---------- admission: the saturation test against the live set ---------- *)
+Lemma filter_map_length {A B} (g : B -> bool) (f : A -> B) (l : list A) :
+  length (filter g (map f l)) = length (filter (fun x => g (f x)) l).
+Proof.
+  induction l as [|x t IH]; cbn; auto. destruct (g (f x)); cbn; now rewrite IH.
+Qed.
+
+Lemma Permutation_filter_len {A} (f : A -> bool) (l l' : list A) :
+  Permutation l l' -> length (filter f l) = length (filter f l').
+Proof.
+  induction 1 as [|x l l' HP IH|x y l|l1 l2 l3 H1 IH1 H2 IH2]; cbn; auto.
+  - destruct (f x); cbn; now rewrite IH.
+  - destruct (f x), (f y); cbn; auto.
+  - congruence.
+Qed.
+
+Lemma In_combine_seq (s : pslice) : forall a b l,
+  In (b, l) (combine (seq a (length s)) s) -> (a <= b)%nat /\ nth (b - a) s [] = l.
+Proof.
+  induction s as [|x t IH]; intros a b l H; cbn in H; [destruct H|].
+  destruct H as [H|H].
+  - inversion H; subst. split; [lia|]. now rewrite Nat.sub_diag.
+  - apply IH in H. destruct H as [H1 H2]. split; [lia|].
+    replace (b - a)%nat with (S (b - S a)) by lia. exact H2.
+Qed.
+
+Lemma each_snd cfg (c : pslice) x :
+  wf_ps cfg c -> In x (each c) -> snd x = N.of_nat (pbin cfg (fst x)).
+Proof.
+  intros [Hl Hb] H. unfold each in H. apply in_flat_map in H. destruct H as [[b l] [Hbl Hx]].
+  apply in_rev in Hbl. unfold binned in Hbl. apply In_combine_seq in Hbl. destruct Hbl as [_ Hn].
+  unfold tag in Hx. cbn [fst snd] in Hx. apply in_map_iff in Hx. destruct Hx as [q [Hq1 Hq2]].
+  subst x. cbn [fst snd]. rewrite Nat.sub_0_r in Hn. subst l. now rewrite (Hb _ _ Hq2).
+Qed.
+
+Lemma count_bin_reported cfg st (b : nat) :
+  wf_ps cfg (conn st) ->
+  count_bin cfg (unreach st) (N.of_nat b) (conn st) =
+  N.of_nat (length (filter (in_bin_counted cfg st b) (reported (conn st)))).
+Proof.
+  intros Hw. unfold count_bin, reported. rewrite filter_map_length. do 2 f_equal.
+  apply filter_ext_in. intros x Hx. unfold counted, in_bin_counted.
+  rewrite (each_snd cfg _ x Hw Hx).
+  replace (N.of_nat (pbin cfg (fst x)) =? N.of_nat b) with (Nat.eqb (pbin cfg (fst x)) b).
+  - destruct (unreach st (fst x)), (Nat.eqb (pbin cfg (fst x)) b), (is_static cfg (fst x)); reflexivity.
+  - destruct (Nat.eqb_spec (pbin cfg (fst x)) b) as [E|E]; symmetry.
+    + apply N.eqb_eq. now rewrite E.
+    + apply N.eqb_neq. lia.
+Qed.
+
+Lemma oversaturated_is_spec cfg st L p :
+  InvC cfg (conn st) L ->
+  oversaturated cfg st p = oversaturated_spec cfg st L (prox cfg p).
+Proof.
+  intros [Hw Hn Hm Hl]. unfold oversaturated, oversaturated_spec, bin_saturated.
+  rewrite (N.leb_antisym (N.of_nat (prox cfg p))).
+  destruct (N.of_nat (prox cfg p) <? potential_depth cfg (thr st) (unreach st) (known st)); cbn [negb snd andb]; auto.
+  rewrite count_bin_reported by auto. do 2 f_equal.
+  apply Permutation_filter_len. apply NoDup_Permutation; auto.
+  - eapply NoDup_reported; eauto.
+  - intros q. rewrite (In_reported_mem cfg) by auto. apply Hm.
+Qed.
+
+(** return value of an inbound attempt on a node that is not in boot-node mode *)
+Lemma connected_resp_nonboot cfg st p force bfail victim :
+  c_boot cfg = false ->
+  let r := snd (fst (connected cfg st p force bfail victim)) in
+  (r = RErrOversaturated <-> oversaturated cfg st p && negb (is_protected st p) && negb force = true) /\
+  (r = ROk \/ r = RErrOversaturated \/ r = RErrAnnounce) /\
+  (r = RErrAnnounce <-> (oversaturated cfg st p && negb (is_protected st p) && negb force = false) /\
+                        c_disc cfg && bfail && announce_targets st p = true).
+Proof.
+  intros Hb. unfold connected, on_connected. rewrite Hb.
+  destruct (oversaturated cfg st p && negb (is_protected st p)), force,
+           (c_disc cfg && bfail && announce_targets st p);
+    cbn [fst snd andb negb]; intuition (try discriminate; auto).
+Qed.
+
+Lemma pick_spec cfg st L p :
+  InvC cfg (conn st) L ->
+  pick cfg st p = c_boot cfg || is_protected st p || negb (oversaturated_spec cfg st L (prox cfg p)).
+Proof.
+  intros H. unfold pick. rewrite <- (oversaturated_is_spec cfg st L p H).
+  destruct (c_boot cfg), (is_protected st p); reflexivity.
+Qed.
+
+(** boot-node mode: one counted peer of the bin is dropped to make room *)
+Lemma connected_boot cfg st p force bfail victim :
+  c_boot cfg = true -> oversaturated cfg st p = true -> is_protected st p = false ->
+  let '(st', r, calls) := connected cfg st p force bfail victim in
+  (evict_candidates cfg st p = [] /\ r = RErrEmptyBin /\ st' = st /\ calls = []) \/
+  (exists v rest, calls = v :: rest /\ In v (ps_bin (conn st) (prox cfg p)) /\ is_static cfg v = false /\
+                  (r = ROk \/ r = RErrAnnounce)).
+Proof.
+  intros Hb Ho Hp. unfold connected. rewrite Hb, Ho, Hp. cbn [negb andb].
+  destruct (evict_candidates cfg st p) as [|c0 cs] eqn:Ec; [left; auto|].
+  set (v := nth _ _ _).
+  assert (Hv : In v (c0 :: cs)).
+  { unfold v. apply nth_In. apply Nat.mod_upper_bound. cbn. lia. }
+  rewrite <- Ec in Hv. unfold evict_candidates in Hv. apply filter_In in Hv. destruct Hv as [Hv1 Hv2].
+  unfold on_connected. destruct (c_disc cfg && bfail && announce_targets (p2p_disc cfg st v) p); right.
+  - exists v, [p]. repeat split; auto. now destruct (is_static cfg v).
+  - exists v, []. repeat split; auto. now destruct (is_static cfg v).
+Qed.
+
+(** the known slice keeps its number of bins *)
+Lemma known_p2p_disc cfg st v : known (p2p_disc cfg st v) = known st.
+Proof. unfold p2p_disc. now destruct (c_cb cfg). Qed.
+
+Lemma on_connected_ok_known cfg st p bfail :
+  let '(st', r, calls) := on_connected cfg st p bfail in
+  (r = ROk -> known st' = ps_add1 cfg p (known st)) /\ length (known st') = length (known st).
+Proof.
+  unfold on_connected. destruct (c_disc cfg && bfail && announce_targets st p).
+  - split; [discriminate|]. now rewrite known_p2p_disc.
+  - cbn [known]. split; auto. apply len_add1.
+Qed.
+
+Lemma connected_known cfg st p force bfail victim :
+  let '(st', r, calls) := connected cfg st p force bfail victim in
+  (r = ROk -> known st' = ps_add1 cfg p (known st)) /\ length (known st') = length (known st).
+Proof.
+  unfold connected. destruct (oversaturated cfg st p && negb (is_protected st p)).
+  - destruct (c_boot cfg).
+    + destruct (evict_candidates cfg st p) as [|c0 cs]; [split; [discriminate|auto]|].
+      set (v := nth _ _ _).
+      pose proof (on_connected_ok_known cfg (p2p_disc cfg st v) p bfail) as H.
+      destruct (on_connected cfg (p2p_disc cfg st v) p bfail) as [[st2 r] calls].
+      now rewrite known_p2p_disc in H.
+    + destruct force; [apply on_connected_ok_known | split; [discriminate|auto]].
+  - apply on_connected_ok_known.
+Qed.
+
+Lemma connected_ok_known cfg st p force bfail victim :
+  let '(st', r, calls) := connected cfg st p force bfail victim in
+  r = ROk -> known st' = ps_add1 cfg p (known st).
+Proof.
+  pose proof (connected_known cfg st p force bfail victim) as H.
+  destruct (connected cfg st p force bfail victim) as [[st' r] calls]. tauto.
+Qed.
+
+Lemma known_len_step cfg st e : length (known (fst (fst (step cfg st e)))) = length (known st).
+Proof.
+  destruct e as [p f b v|p boot|p|p f1 f2|p|ps|ps|p pub|nb']; cbn [step].
+  - pose proof (connected_known cfg st p f b v) as H.
+    destruct (connected cfg st p f b v) as [[st' r] calls]. cbn [fst]. tauto.
+  - unfold outbound. destruct boot; cbn [fst known]; [apply len_remove | apply len_add1].
+  - reflexivity.
+  - unfold disconnect_force. destruct f1; cbn [fst]; auto.
+    destruct f2; cbn [fst known]; rewrite ?len_remove; now rewrite known_p2p_disc.
+  - reflexivity.
+  - cbn [fst known]. apply len_add.
+  - reflexivity.
+  - unfold reach. now destruct pub.
+Qed.
+
+Lemma known_len_run cfg h : forall st, length (known (snd (run cfg st h))) = length (known st).
+Proof.
+  induction h as [|e t IH]; intros st; cbn [run]; auto.
+  pose proof (known_len_step cfg st e) as H1.
+  destruct (step cfg st e) as [[st1 r] calls]. cbn [fst] in H1. specialize (IH st1).
+  destruct (run cfg st1 t) as [log st2]. cbn [snd] in *. congruence.
+Qed.
+
+(** ---------- history-level statements ---------- *)
+Section Reachable.
+Variable cfg : config.
+Hypothesis Hnb : (1 <= c_nb cfg)%nat.
+Variable h : list event.
+Let log := fst (run cfg (init cfg) h).
+Let st := snd (run cfg (init cfg) h).
+Let L := live (c_cb cfg) log.
+
+Lemma reach_InvC : InvC cfg (conn st) L.
+Proof. exact (InvC_run cfg Hnb h (init cfg) [] (InvC_init cfg)). Qed.
+
+Lemma admission p bfail victim :
+  c_boot cfg = false -> is_protected st p = false ->
+  snd (fst (step cfg st (EConnected p false bfail victim))) = ROk ->
+  oversaturated_spec cfg st L (prox cfg p) = false.
+Proof.
+  intros Hb Hp Hr. cbn [step] in Hr.
+  destruct (connected_resp_nonboot cfg st p false bfail victim Hb) as [H1 _].
+  rewrite <- (oversaturated_is_spec cfg st L p reach_InvC).
+  destruct (oversaturated cfg st p) eqn:E; auto.
+  rewrite Hp in H1. cbn [negb andb] in H1. destruct H1 as [_ H1]. rewrite H1 in Hr by auto. discriminate.
+Qed.
+
+Lemma inbound_response p force bfail victim :
+  c_boot cfg = false ->
+  let r := snd (fst (step cfg st (EConnected p force bfail victim))) in
+  (r = RErrOversaturated <->
+     oversaturated_spec cfg st L (prox cfg p) && negb (is_protected st p) && negb force = true) /\
+  (r = ROk \/ r = RErrOversaturated \/ r = RErrAnnounce) /\
+  (r = RErrAnnounce -> c_disc cfg = true /\ bfail = true).
+Proof.
+  intros Hb r. unfold r. cbn [step].
+  destruct (connected_resp_nonboot cfg st p force bfail victim Hb) as [H1 [H2 H3]].
+  rewrite <- (oversaturated_is_spec cfg st L p reach_InvC). split; [exact H1|]. split; [exact H2|].
+  intros E. apply H3 in E. destruct E as [_ E].
+  destruct (c_disc cfg), bfail; cbn [andb] in E; try discriminate; auto.
+Qed.
+
+Lemma admitted_is_reported p force bfail victim :
+  let '(st', r, calls) := step cfg st (EConnected p force bfail victim) in
+  r = ROk -> In p (reported (conn st')) /\ In p (reported (known st')).
+Proof.
+  cbn [step].
+  pose proof (InvC_connected cfg Hnb st L p force bfail victim reach_InvC) as H1.
+  pose proof (connected_ok_known cfg st p force bfail victim) as H2.
+  destruct (connected cfg st p force bfail victim) as [[st' r] calls].
+  intros Hr. subst r. cbn [after_inbound] in H1. split.
+  - apply (mem_In_reported cfg). apply (ic_mem _ _ _ H1). apply In_set_add. now left.
+  - apply (mem_In_reported cfg). rewrite (H2 eq_refl). apply mem_add1; auto.
+    unfold st. rewrite known_len_run. cbn [init known]. unfold ps_new. rewrite repeat_length. now apply pbin_lt.
+Qed.
+
+Lemma pick_response p :
+  snd (fst (step cfg st (EPick p))) =
+  RBool (c_boot cfg || is_protected st p || negb (oversaturated_spec cfg st L (prox cfg p))).
+Proof. cbn [step fst snd]. now rewrite (pick_spec cfg st L p reach_InvC). Qed.
+
+Lemma bootnode_eviction p force bfail victim :
+  c_boot cfg = true -> is_protected st p = false ->
+  oversaturated_spec cfg st L (prox cfg p) = true ->
+  let '(st', r, calls) := step cfg st (EConnected p force bfail victim) in
+  (r = RErrEmptyBin /\ st' = st /\ calls = []) \/
+  (exists v rest, calls = v :: rest /\ In v (reported (conn st)) /\ pbin cfg v = prox cfg p /\
+                  is_static cfg v = false /\ (r = ROk \/ r = RErrAnnounce)).
+Proof.
+  intros Hb Hp Ho. rewrite <- (oversaturated_is_spec cfg st L p reach_InvC) in Ho.
+  cbn [step]. pose proof (connected_boot cfg st p force bfail victim Hb Ho Hp) as H.
+  destruct (connected cfg st p force bfail victim) as [[st' r] calls].
+  destruct H as [[_ H]|[v [rest [H1 [H2 [H3 H4]]]]]]; [left; auto|right].
+  exists v, rest. repeat split; auto.
+  - apply In_reported. now exists (prox cfg p).
+  - apply (wf_bins _ _ (ic_wf _ _ _ reach_InvC) _ _ H2).
+Qed.
+
+End Reachable.
